@@ -162,6 +162,8 @@ def run(prop, tier, seed):
         cases.append(("valid", data, meta))
     for tag, data in witness_maps(gen, spec):
         cases.append((tag, data, {"form": "witness"}))
+    for tag, data in probe_maps(gen, spec):
+        cases.append((tag, data, {"form": "probe"}))
     lines = ["cycle " + hx(d) for _, d, _ in cases]
     model = None
     try:
@@ -231,6 +233,45 @@ def strip_unmodelled(data, spec):
             p = refchk.build(lay[b"TRIG"], f)
         chunks.append((n, p))
     return refchk.join_chunks(chunks)
+
+
+def probe_maps(gen, spec):
+    """deterministic targeted maps (tag prefix decides which oracles apply: `editor:` = editor form)"""
+    import struct
+
+    L = refchk.layouts_of(spec)
+    out = []
+    base, _ = gen.gen("editor")
+    chunks = [(n, p) for n, _, p in refchk.split_chunks(base)]
+
+    def with_sections(repl, extra=()):
+        return refchk.join_chunks([(n, repl.get(n, p)) for n, p in chunks] + list(extra))
+
+    za = {f: 0 for f, _ in L[b"TRIG"]["af"]}
+    zc = {f: 0 for f, _ in L[b"TRIG"]["cf"]}
+    always = dict(zc, _condition_id=22)
+
+    def trig(acts, flags=0):
+        return {"conds": ([always] + [zc] * 16)[:16], "acts": (acts + [za] * 64)[:64], "execFlags": flags, "players": [1] + [0] * 26, "cur": 0}
+
+    # 1. a trigger with non-zero execution flags (preserve trigger): kept, or the load/save raises
+    tp = refchk.build(L[b"TRIG"], {"triggers": [trig([dict(za, _action_id=1)], flags=4), trig([dict(za, _action_id=2)], flags=0)]})
+    out.append(("valid:probe-exec-flags", with_sections({b"TRIG": tp})))
+    # 2. two unit-property slots with equal contents, one otherwise identical "create unit with properties"
+    #    action on each (same trigger and different triggers): each keeps its own slot
+    slot = {"_valid_special_properties_flags": 3, "_valid_unit_properties_flags": 5, "_owner_player": 0, "_hitpoints_percentage": 50, "_shieldpoints_percentage": 0,
+            "_energypoints_percentage": 0, "_resource_amount": 0, "_units_in_hangar": 0, "_flags": 1, "_padding": 0}
+    zero = {k: 0 for k in slot}
+    uprp = refchk.build(L[b"UPRP"], {"records": [slot, zero, slot] + [zero] * 61})
+    upus = bytes([1, 0, 1] + [0] * 61)
+    cu = lambda s: dict(za, _action_id=11, _first_group=0, _quantifier_or_switch_or_order=1, _action_argument_type=0, _location_id=64, _second_group=s, _flags=4)  # noqa: E731
+    tp = refchk.build(L[b"TRIG"], {"triggers": [trig([cu(1), cu(3)]), trig([cu(3)]), trig([cu(1)])]})
+    out.append(("editor:probe-twin-cuwp-actions", with_sections({b"TRIG": tp, b"UPRP": uprp, b"UPUS": upus})))
+    # 3. unknown sections whose 4 name bytes are valid multi-byte UTF-8 (fewer than 4 characters), invalid
+    #    UTF-8, NULs; empty and duplicated
+    extra = [(b"\xc3\xa9AB", b"payload-1"), (b"\xe2\x82\xacZ", b""), (b"\xf0\x9f\x98\x80", b"\x00\x01\x02"), (b"\xff\xfeAB", b"xyz"), (b"\xc3\xa9AB", b"again"), (b"A\x00\x00\x00", b"nul")]
+    out.append(("editor:probe-utf8-section-names", with_sections({}, extra)))
+    return out
 
 
 def first_diff(a, b):
